@@ -1005,6 +1005,21 @@ impl Interp {
                     self.div("C08", "has-open-handles", format!("has_open_handles() = {} with {} directories and {} files open", r, self.dirs.len(), self.files.len()));
                 }
             }
+            Op::LongHistory { which, back } => {
+                let ids: Vec<u32> = self
+                    .all_handle_ids()
+                    .iter()
+                    .filter_map(|h| u32::from_str_radix(Self::numeric_id(h).trim_start_matches("0x"), 16).ok())
+                    .collect();
+                let Some(i) = Self::pick(&ids, *which) else {
+                    info.skipped = true;
+                    return;
+                };
+                let next = ids[i].wrapping_sub(*back as u32);
+                self.api.as_ref().unwrap().set_next_handle_id(next);
+                info.ok = true;
+                info.state_class = Some("counter-came-round-to-open-handle");
+            }
             Op::Label { v } => {
                 let Some(i) = Self::pick(&self.vols, *v) else {
                     info.skipped = true;
